@@ -76,7 +76,9 @@ ids('C18', {1801: 'insert_unchecked differs from insert', 1802: 'get_disjoint_un
 ids('C17', {1701: 'len() > capacity() under inconsistent Eq', 1702: 'iteration count != len() under inconsistent Eq', 1703: 'aliasing mutable references',
              1704: 'memory outside the container (canary) overwritten', 1705: 'unexpected panic', 302: 'an element was leaked or destroyed twice', 901: 'double drop',
              902: 'clone of dead data', 903: 'comparison of dead data', 904: 'dead/out-of-container data handed out', 905: 'borrow of dead data'})
-ids('C06', {501: 'returned reference points outside the container value'})
+ids('C02', {611: '', 605: '', 1303: ''})
+ids('C12', {433: 'get_key_value exposes a key object that is not the stored one', 611: 'iteration exposes a key object that is not the stored one', 605: 'consuming iteration exposes objects that are not the stored ones', 207: '', 423: '', 402: '', 452: ''})
+ids('C06', {804: 'set-algebra item outside the left operand', 1303: 'get_disjoint_mut reference outside the map', 501: 'returned reference points outside the container value'})
 
 # engine-level result classes that count for every property whose harness shows them
 ENGINE_ALWAYS = {'ESCAPE', 'ABORT'}
@@ -149,8 +151,18 @@ fam('c17_remove c17_lookup', 'g_liar', [1, 2, 3], [4], profiles=('rel', 'dbg'))
 fam('c17_disjoint', 'g_liar', [(1, 2), (2, 2), (3, 2), (2, 3), (3, 3)], [(4, 3), (4, 4)], profiles=('rel', 'dbg'))
 fam('c17_set', 'g_liar', [(1, 1), (2, 1), (1, 2)], [(2, 2), (3, 2)])   # (2,2): 8 min
 
+fam('c06_refs c06_refs_set', 'g_map', [1, 2, 3], [4])
+
 # --------------------------------------------------------------------------------------- properties
 PROPS = {
+    'C02': dict(fams='c01_insert c01_insert_kv c01_checked_insert c01_lookup c01_remove c01_remove_entry c01_retain c01_clear c01_drain_all '
+                     'c10_into_iter c10_into_keys c10_into_values c10_set_into_iter c10_drain c10_set_drain '
+                     'c07_insert c07_replace c07_remove c07_take c07_retain c07_clear c07_drain c07_extend c11_or c11_variants c11_key_and_modify c16_from_iter'),
+    'C12': dict(fams='c01_insert c01_insert_kv c01_checked_insert c01_lookup c01_remove_entry c03_replace_full c07_insert c07_replace c07_lookup c07_take '
+                     'c09_iter c09_set_iter c10_into_iter c10_set_into_iter c11_or c11_variants c11_key_and_modify c16_from_iter c16_from_array'),
+    'C06': dict(fams='c06_refs c06_refs_set c01_insert c01_lookup c01_remove c01_retain c01_clear c01_drain_all c09_iter c09_iter_mut c10_into_iter c10_drain '
+                     'c07_insert c07_remove c07_lookup c08_union c08_intersection c08_difference c08_symdiff c08_sub c14_map c14_set c15_clone c16_from_iter c13_disjoint',
+                gate='nostd_build'),
     'C17': dict(fams='c17_insert c17_remove c17_lookup c17_disjoint c17_set'),
     'C13': dict(fams='c13_disjoint c13_disjoint_tok'),
     'C15': dict(fams='c15_clone c15_set_clone'),
